@@ -25,7 +25,7 @@ from .c10 import stock_cases, dyn_network
 PID = "C13"
 QUICK = ["kundur/kundur_full.json", "kundur/kundur_full.xlsx", "ieee14/ieee14_pvd1.xlsx", "ieee14/ieee14_full.xlsx", "5bus/pjm5bus.json",
          "ieee14/ieee14_fault.json", "ieee39/ieee39_full.xlsx", "ieee14/ieee14_zip.json", "wscc9/wscc9.xlsx",
-         "kundur/kundur_coi.xlsx", "ieee14/ieee14_ace.xlsx"]
+         "kundur/kundur_coi.xlsx", "ieee14/ieee14_ace.xlsx", "ieee14/ieee14_alter.xlsx"]
 
 
 def run(tier):
@@ -57,7 +57,7 @@ def run(tier):
         idx_kind = ["int", "str", "auto"][k % 3]
         spec = dyn_network(rnd, k, idx_kind, False, rnd.randint(0, 10 ** 6)) if k % 2 else pfdrv.network_spec(500 + k, ["int", "str"][k % 2], 1 + k % 3, k)
         tasks.append(dict(kind="rt", sid="rt-gen[k=%d|%s]" % (k, idx_kind), spec=spec, formats=["json", "xlsx"] if k % 2 == 0 else ["xlsx>json"], solve=True))
-    for c in (["ieee14/ieee14.json", "kundur/kundur_full.json"] if quick else ["ieee14/ieee14.json", "kundur/kundur_full.json", "ieee39/ieee39.xlsx", "npcc/npcc.xlsx", "wscc9/wscc9.xlsx"]):
+    for c in (["ieee14/ieee14.json", "kundur/kundur_full.json", "npcc/npcc.xlsx"] if quick else ["ieee14/ieee14.json", "kundur/kundur_full.json", "ieee39/ieee39.xlsx", "npcc/npcc.xlsx", "wscc9/wscc9.xlsx"]):
         tasks.append(dict(kind="matpower", sid="mpc[%s]" % c, case=c))
         tasks.append(dict(kind="matpower", sid="mpc[%s|phase shifter]" % c, case=c, phase_shifter=2))
     # fill in the idx of the altered device
@@ -103,7 +103,8 @@ def task(t):
     if t.get("alter"):
         from ..common import load_case
         ss = load_case(t["case"])
-        t = dict(t, alter=[(m, p, (ss.models[m].idx.v[0] if i is None else i), v) for (m, p, i, v) in t["alter"]])
+        t = dict(t, alter=[(m, p, (ss.models[m].idx.v[min(2, ss.models[m].n - 1)] if i is None else i), v) for (m, p, i, v) in t["alter"]
+                           if ss.models[m].n > 0])
     return iodrv.task(t)
 
 
